@@ -10,7 +10,7 @@
    Any `Num` instance; no arithmetic fact is used. *)
 From Coq Require Import ZArith Bool List Lia.
 From TV Require Import Num.Num Gen.BlockGen Model.Block Model.Engine Model.FiltersBase Gen.FiltersGen Model.ItemFilters Model.BlockAlg.
-From TV Require Import Proofs.EngineMemo Proofs.EngineDirty Proofs.EngineHidden Proofs.EngineBlind Proofs.EngineAbs Proofs.BlockBlind Proofs.ItemFiltersBase Proofs.ItemFiltersHidden.
+From TV Require Import Proofs.EngineMemo Proofs.EngineDirty Proofs.EngineHidden Proofs.EngineBlind Proofs.EngineAbs Proofs.BlockBlind Proofs.ItemFiltersBase Proofs.ItemFiltersHiddenBlock.
 Import ListNotations.
 Close Scope Z_scope.
 
